@@ -312,6 +312,42 @@ pub fn real_run(spec: &StateSpec) -> (String, bool) {
     }
 }
 
+/// Reading the printed output is not an operation on the machine: reading it twice gives the same text, the state is
+/// unchanged by a read, and a state that was read in between continues exactly like one that was not (a second
+/// program that prints is pushed and run: the text printed so far stays in front).  `None` = fine.
+pub fn reread_oracle(spec: &StateSpec) -> Option<String> {
+    let s = spec.build();
+    let r = std::panic::catch_unwind(std::panic::AssertUnwindSafe(move || s.run_to_completion()));
+    let Ok(Ok(mut a)) = r else { return None };
+    let mut b = a.clone();                      // never read before the second stage
+    let before = dump(&a);
+    let o1 = a.stdout_string().map_err(|_| ());
+    let o2 = a.stdout_string().map_err(|_| ());
+    if o1 != o2 { return Some(format!("two reads of the output of the same final state differ: {o1:?} then {o2:?}")); }
+    if dump(&a) != before || a != b { return Some(format!("reading the output changed the state: {before} became {}", dump(&a))); }
+    // second stage: print something more (and push an integer and print it), on the state that was read and on the one that was not
+    let more = || vec![
+        PushProgram::Instruction(IntInstruction::Print(push::instruction::printing::Print::new()).into()),
+        PushProgram::Instruction(PushInstruction::push_int(-7)),
+        PushProgram::Instruction(PushInstruction::PrintString(push::instruction::printing::PrintString("Z!".into()))),
+    ];
+    let stage = |mut st: PushState| -> Option<PushState> {
+        if st.stack::<PushProgram>().max_stack_size() < st.stack::<PushProgram>().size() + 3 { return None; }
+        st.stack_mut::<PushProgram>().push_many(more()).ok()?;
+        std::panic::catch_unwind(std::panic::AssertUnwindSafe(move || st.run_to_completion())).ok()?.ok()
+    };
+    let (Some(mut a2), Some(mut b2)) = (stage(a), stage(b.clone())) else { return None };
+    let (oa, ob) = (a2.stdout_string().map_err(|_| ()), b2.stdout_string().map_err(|_| ()));
+    if oa != ob || dump(&a2) != dump(&b2) {
+        return Some(format!("a state whose output was read continues differently from one that was not read: output {oa:?} vs {ob:?}"));
+    }
+    if let (Ok(first), Ok(all)) = (&o1, &oa) {
+        if !all.starts_with(first.as_str()) { return Some(format!("the output printed so far ({first:?}) is not the beginning of the output after printing more ({all:?})")); }
+    }
+    let _ = b.stdout_string();
+    None
+}
+
 // ---------------------------------------------------------------------------------------------
 // value pools
 // ---------------------------------------------------------------------------------------------
@@ -748,6 +784,11 @@ pub fn run_run(cfg: &Cfg) -> Report {
             }
             if !within {
                 r.violate(json!({"prop": "C03", "case": req, "real": real, "what": "a stack holds more elements than its configured maximum after the run"}));
+            }
+            if l == spec.max_steps {
+                if let Some(what) = reread_oracle(&sp) {
+                    r.violate(json!({"prop": "C01", "case": short, "real": real, "what": what}));
+                }
             }
             if kind == "fatal" && !real.starts_with("fatal:overflow") {
                 r.violate(json!({"prop": "C03", "case": req, "real": real, "what": "evaluation ended with an error other than stack overflow"}));
